@@ -130,7 +130,8 @@ def pool_lines(recs, rng, n):
 
 
 def pool_file(ctx, lines, n, tt, name):
-    ut = ["utt%02d" % k for k in range(len(lines))]
+    # ids neither sorted nor all distinct: the order of the list is the order of the FILE, not of the ids
+    ut = ["utt%02d" % ((5 * k + 3) % 17) if k != 2 else "utt03" for k in range(len(lines))]
     path = os.path.join(_tr.fast_scratch(ctx, "io"), name)
     text = "".join(_tr.trn_line_text(lines[k]["lex"][0], ut[k], tt) for k in range(n))
     with open(path, "w") as f:
